@@ -385,6 +385,11 @@ func solveAll(units []*Unit, dir string, timeout time.Duration, which []solverSp
 	wg.Wait()
 }
 
+// crossCheck (thorough tier): after the first definite answer the other solvers get a grace period; an opposite
+// definite answer makes the obligation "disputed" (not discharged).
+var crossCheck bool
+var crossGrace = 4 * time.Second
+
 func (u *Unit) solveText(o *Obl, q string, dir string, timeout time.Duration, which []solverSpec) {
 	fn := filepath.Join(dir, sanitize(o.Name)+".smt2")
 	_ = os.WriteFile(fn, []byte(q), 0o644)
@@ -396,10 +401,9 @@ func (u *Unit) solveText(o *Obl, q string, dir string, timeout time.Duration, wh
 	}
 	var last solveResult
 	var errs []string
-	for range which {
+	for i := range which {
 		r := <-ch
 		if r.status == "unsat" || r.status == "sat" {
-			cancel()
 			o.Solver = r.solver
 			o.Secs = r.secs
 			o.Raw = r.out
@@ -409,6 +413,25 @@ func (u *Unit) solveText(o *Obl, q string, dir string, timeout time.Duration, wh
 				o.Status = "refuted"
 				o.Model = parseModel(r.out)
 			}
+			o.Agree = 1
+			if crossCheck {
+				grace := time.After(crossGrace)
+			collect:
+				for j := i + 1; j < len(which); j++ {
+					select {
+					case r2 := <-ch:
+						if r2.status == r.status {
+							o.Agree++
+						} else if r2.status == "unsat" || r2.status == "sat" {
+							o.Status = "disputed"
+							o.Raw = fmt.Sprintf("solvers disagree: %s says %s, %s says %s", r.solver, r.status, r2.solver, r2.status)
+						}
+					case <-grace:
+						break collect
+					}
+				}
+			}
+			cancel()
 			return
 		}
 		if r.status == "error" {
